@@ -111,7 +111,7 @@ Section Cold.
     destruct F as [|f dir]; [reflexivity|].
     assert (E : forall dirs, first_some (conftest_step dk roots s flt (defs_named s n) n) dirs
                              = first_some (conftest_step dk roots (cold s) flt (defs_named s n) n) dirs).
-    { induction dirs as [|d dirs IHd]; [reflexivity|]. cbn [first_some].
+    { induction dirs as [|d dirs IHd]; [cbn [first_some]; exact eq_refl|]. cbn [first_some].
       assert (Es : conftest_step dk roots s flt (defs_named s n) n d = conftest_step dk roots (cold s) flt (defs_named s n) n d).
       { unfold conftest_step. change (in_cache (cold s) (conftest_py :: d)) with (in_cache s (conftest_py :: d)).
         now rewrite (is_imported_cold s n _ Hn). }
@@ -124,7 +124,11 @@ Section Cold.
   Proof.
     intros Hn. unfold available. rewrite (av_hit_none s F Hn). unfold available_cold.
     change (add_last (cold s)) with (add_last s). change (add_first (cold s)) with (add_first s).
-    destruct F as [|f dir]; [reflexivity|]. f_equal. f_equal. f_equal.
+    destruct F as [|f dir]; [reflexivity|].
+    (* congruence steps are given explicitly: a bare [f_equal] spends minutes here *)
+    match goal with |- isort ?le ?a = isort ?le ?b => apply (f_equal (isort le)) end.
+    match goal with |- add_first ?s0 ?p ?a = add_first ?s0 ?p ?b => apply (f_equal (add_first s0 p)) end.
+    match goal with |- add_first ?s0 ?p ?a = add_first ?s0 ?p ?b => apply (f_equal (add_first s0 p)) end.
     apply fold_left_ext. intros acc d. cbn zeta. unfold add_imported.
     change (in_cache (cold s) (conftest_py :: d)) with (in_cache s (conftest_py :: d)).
     destruct (in_cache s (conftest_py :: d)); [|reflexivity].
